@@ -1,6 +1,6 @@
 #!/bin/bash
 # usage: seed_eval.sh <patch> <property-id>...   -- applies a seeded change to /repo, runs the listed checks, reverts it
-p=$1; shift
+p=$(realpath "$1"); shift
 cd /repo || exit 2
 if [ -n "$(git status --porcelain)" ]; then echo "REFUSING: /repo has uncommitted changes (commit contract edits first)"; exit 4; fi
 if ! git apply --check "$p" 2>/dev/null; then echo "PATCH DOES NOT APPLY: $p"; exit 3; fi
@@ -11,3 +11,5 @@ for id in "$@"; do
   echo "== $id exit=$rc"; echo "$out" | grep -E "VIOLATION|obligation |property |VACUOUS|gobtvc:" | head -8
 done
 cd /repo && git apply -R "$p" && git status --short | head -3
+# the runs above rewrote evidence/<id>.json from a changed tree: put the committed (clean-run) evidence back
+for id in "$@"; do git -C /verif checkout -- evidence/$id.json 2>/dev/null; done
